@@ -706,7 +706,7 @@ class FixedArray
         return len();
     }
 
-    FixedArray<T> ifelse_vector(const FixedArray<int> &choice, const FixedArray<T> &other) {
+    FixedArray<T> ifelse_vector(const FixedArray<int> &choice, const FixedArray<T> &other) const {
         size_t len = match_dimension(choice);
         match_dimension(other);
         FixedArray<T> tmp(len); // should use default construction but V3f doens't initialize
@@ -714,7 +714,7 @@ class FixedArray
         return tmp;
     }
 
-    FixedArray<T> ifelse_scalar(const FixedArray<int> &choice, const T &other) {
+    FixedArray<T> ifelse_scalar(const FixedArray<int> &choice, const T &other) const {
         size_t len = match_dimension(choice);
         FixedArray<T> tmp(len); // should use default construction but V3f doens't initialize
         for (size_t i=0; i < len; ++i) tmp[i] = choice[i] ? (*this)[i] : other;
